@@ -8,7 +8,9 @@
 // SeqNumberAttr, random-duration handler, recording sink (dumps every accessor, the delivering thread, takes a ticket).
 // Tickets (one global atomic): C before the call, P at hook "own.locked" (M held: the post happens in this critical
 // section), R at hook "own.posted", T after the call returned, D inside the sink.
-// input line:  <mode> <producers> <messages each> <seed> <perturb 0..3> <sinkdelay 0..2>
+// input line:  <mode> <producers> <messages each> <seed> <perturb 0..3> <sinkdelay 0..2> [<stall ms>]
+//   stall: the sink sleeps that long once, inside its first delivery (a stalled sink); the header reports the longest
+//   logging call (maxcall_us) so that a call blocking on the sink is visible
 // output: RUN header; "EV <tokens>"; "TW p i <dump>" per message; "AS k p i onworker <dump>" per delivery; "END".
 #ifdef VERIF_HEADER_ONLY
 #include "qtlogger.h"
@@ -31,7 +33,9 @@ using namespace QtLogger;
 struct Ev { char kind; int prod, idx; };
 static std::vector<Ev> g_events;
 static std::atomic<long> g_ticket{0};
-static int g_perturb = 1, g_sinkdelay = 0;
+static int g_perturb = 1, g_sinkdelay = 0, g_stall_ms = 0;
+static std::atomic<bool> g_stalled{false};
+static std::atomic<long> g_maxcall_us{0};
 thread_local int tl_prod = -1;
 thread_local int tl_idx = -1;
 thread_local std::mt19937 tl_rng{12345};
@@ -100,6 +104,7 @@ struct RecSink : Sink {
         int p = -1, i = -1;
         sscanf(m.message().toUtf8().constData(), "%d %d", &p, &i);
         record('D', p, i);
+        if (g_stall_ms > 0 && !g_stalled.exchange(true)) usleep(g_stall_ms * 1000);
         std::lock_guard<std::mutex> l(g_async_mx);
         g_async.push_back(Rec { (int)g_async.size(), p, i, QThread::currentThread() == g_worker_thread ? 1 : 0, dump(m) });
     }
@@ -119,7 +124,8 @@ int main(int argc, char **argv)
     while (std::getline(std::cin, line)) {
         std::istringstream is(line);
         std::string mode; int n = 2, per = 10; unsigned seed = 1;
-        is >> mode >> n >> per >> seed >> g_perturb >> g_sinkdelay;
+        g_stall_ms = 0; g_stalled = false; g_maxcall_us = 0;
+        is >> mode >> n >> per >> seed >> g_perturb >> g_sinkdelay >> g_stall_ms;
         if (mode.empty()) continue;
         g_events.assign((size_t)n * per * 6 + 16, Ev { '?', 0, 0 });
         g_ticket = 0;
@@ -132,7 +138,11 @@ int main(int argc, char **argv)
             for (int i = 0; i < per; i++) {
                 std::string tw;
                 tl_prod = p; tl_idx = i;
+                auto c0 = std::chrono::steady_clock::now();
                 send_one(p, i, tw);
+                long us = std::chrono::duration_cast<std::chrono::microseconds>(std::chrono::steady_clock::now() - c0).count();
+                long cur = g_maxcall_us.load();
+                while (us > cur && !g_maxcall_us.compare_exchange_weak(cur, us)) { }
                 tl_prod = -1;
                 twin[p].push_back(tw);
                 if (tl_rng() % 4 == 0) perturb();
@@ -206,7 +216,7 @@ int main(int argc, char **argv)
         long cnt = std::min<long>(g_ticket.load(), (long)g_events.size());
         std::ostringstream o;
         o << "RUN " << mode << " " << n << " " << per << " " << seed << " " << g_perturb << " " << g_sinkdelay << " events=" << g_ticket.load()
-          << (g_ticket.load() > (long)g_events.size() ? " OVERFLOW" : "") << "\nEV ";
+          << (g_ticket.load() > (long)g_events.size() ? " OVERFLOW" : "") << " stall_ms=" << g_stall_ms << " maxcall_us=" << g_maxcall_us.load() << "\nEV ";
         for (long k = 0; k < cnt; k++) o << g_events[k].kind << "." << g_events[k].prod << "." << g_events[k].idx << " ";
         o << "\n";
         for (int p = 0; p < n; p++)
